@@ -236,6 +236,63 @@ fn compare(ctx: &Ctx, beh: &Value, reply: &Value) {
     }
 }
 
+/// C18: every call of a history must return what the spec says (which is, by construction, what the same
+/// call returns on a freshly compiled Regex), whatever else happened on the shared objects
+fn compare_history(ctx: &Ctx, job: &Value, reply: &Value) {
+    let hist = job["hist"].as_array().cloned().unwrap_or_default();
+    let res = reply["res"].as_array().cloned().unwrap_or_default();
+    let mode = job["mode"].as_str().unwrap_or("seq");
+    // source of each register / iterator, for the violation record
+    let mut src: std::collections::HashMap<u64, Value> = std::collections::HashMap::new();
+    let mut itsrc: std::collections::HashMap<u64, (u64, Value)> = std::collections::HashMap::new();
+    for (i, op) in hist.iter().enumerate() {
+        let name = op["op"].as_str().unwrap_or("");
+        if name == "compile" {
+            src.insert(op["r"].as_u64().unwrap_or(0), json!({"pat": op["pat"], "flags": op["flags"], "x": op["x"]}));
+        }
+        if name == "tokenize" || name == "analyze" {
+            itsrc.insert(op["it"].as_u64().unwrap_or(0), (op["r"].as_u64().unwrap_or(0), op["s"].clone()));
+        }
+        let exp = match op.get("exp") {
+            Some(e) => e,
+            None => continue,
+        };
+        let got = strip_iter_meta(res.get(i).unwrap_or(&Value::Null));
+        {
+            let mut st = ctx.stats.lock().unwrap();
+            st.calls += 1;
+            st.cases += 1;
+        }
+        let (r, s) = if name == "next" {
+            itsrc.get(&op["it"].as_u64().unwrap_or(0)).cloned().unwrap_or((0, json!([])))
+        } else {
+            (op["r"].as_u64().unwrap_or(0), op.get("s").cloned().unwrap_or(json!([])))
+        };
+        let mut beh = src.get(&r).cloned().unwrap_or(json!({"pat": [], "flags": [], "x": true}));
+        beh["history_mode"] = json!(mode);
+        let raw = res.get(i).cloned().unwrap_or(Value::Null);
+        if let Some(k) = fault_kind(&raw) {
+            ctx.violation(k, &beh, &s, &format!("{}#{}({})", name, i, mode), exp.clone(), raw);
+            continue;
+        }
+        ctx.bump(0, "history");
+        let ok = if exp["k"] == "either" {
+            got == json!({"k":"ok","v":exp["v"]}) || (got["k"] == "err" && got["e"] == "InvalidReplacementString")
+        } else if exp["k"] == "err" && exp["e"].is_array() {
+            got["k"] == "err" && exp["e"].as_array().unwrap().contains(&got["e"])
+        } else {
+            got == *exp
+        };
+        if !ok {
+            let mut obs = got.clone();
+            if let Some(c) = raw.get("cut") {
+                obs["cut"] = c.clone();
+            }
+            ctx.violation("history", &beh, &s, &format!("{}#{}({})", name, i, mode), exp.clone(), obs);
+        }
+    }
+}
+
 /// C08: optimised and unoptimised engine must return exactly the same from every call
 fn compare_optdiff(ctx: &Ctx, beh: &Value, reply: &Value) {
     let c1 = strip_iter_meta(&reply["compile"]);
@@ -365,6 +422,18 @@ pub fn main(args: &[String]) -> i32 {
                 }
                 None => println!("REPLAY-BADLINE {}", &l[..l.len().min(200)]),
             }
+        } else if l.starts_with("<<\"H\"") {
+            // a history of calls on shared objects (C18): replayed in order, and from several threads
+            let body = l.strip_prefix("<<\"H\", \"").and_then(|r| r.strip_suffix("\">>"));
+            match body.and_then(|b| serde_json::from_str::<Value>(&unescape_tla(b)).ok()) {
+                Some(h) => {
+                    for mode in ["seq", "mt"] {
+                        id += 1;
+                        pending.push(json!({"id": id, "hist": h["hist"], "mode": mode, "beh": {"pat": [], "flags": []}}));
+                    }
+                }
+                None => println!("REPLAY-BADLINE {}", &l[..l.len().min(200)]),
+            }
         } else if l.starts_with("<<\"P\"") {
             match parse_p_line(&l) {
                 Some(pair) => {
@@ -384,6 +453,16 @@ pub fn main(args: &[String]) -> i32 {
         pending.clone().into_iter()
     });
     pool::process(nworkers, jobs, |job, reply| {
+        if job.get("hist").is_some() {
+            compare_history(&ctx, &job, &reply);
+            let mut st = stats.lock().unwrap();
+            st.behaviours += 1;
+            st.nontrivial += 1;
+            if st.samples.len() < 2 {
+                st.samples.push(json!({"history": job["hist"], "mode": job["mode"]}));
+            }
+            return;
+        }
         let beh = &job["beh"];
         {
             let mut st = stats.lock().unwrap();
